@@ -202,12 +202,12 @@ pub fn new(parameters: &RawParameters, _ctx: &dyn Context) -> Result<Op, Error> 
 
     let polar = (t - FRAC_PI_2).abs() < EPS10;
     let north = polar && (lat_0 > 0.0);
-    let equatorial = !polar && t < EPS10;
-    let oblique = !polar && !equatorial;
-    match (polar, equatorial, north) {
-        (true, _, true) => params.boolean.insert("north_polar"),
-        (true, _, false) => params.boolean.insert("south_polar"),
-        (_, true, _) => params.boolean.insert("equatorial"),
+    // The equatorial aspect is the oblique aspect with lat_0 = 0: The general
+    // formulas hold, so it needs no special handling
+    let oblique = !polar;
+    match (polar, north) {
+        (true, true) => params.boolean.insert("north_polar"),
+        (true, false) => params.boolean.insert("south_polar"),
         _ => params.boolean.insert("oblique"),
     };
 
@@ -230,8 +230,6 @@ pub fn new(parameters: &RawParameters, _ctx: &dyn Context) -> Result<Op, Error> 
     // D in the IOGP text
     let d = if oblique {
         a * (cos_phi_0 / (1.0 - es * sin_phi_0 * sin_phi_0).sqrt()) / (rq * xi_0.cos())
-    } else if equatorial {
-        rq.recip()
     } else {
         a
     };
